@@ -581,6 +581,7 @@ def run(ctx):
     overridden_virtuals_are_replaced(ctx)
     convertibility_through_bases(ctx)
     declared_virtuals_are_collected(ctx)
+    each_base_contributes_its_own_list(ctx)
 
     # ------------------------------------------------------------ R10.2
     fd = db.fn("InterrogateBuilder::define_struct_type")
@@ -879,3 +880,41 @@ def declared_virtuals_are_collected(ctx):
                "own members are collected under: %s%s" % (", ".join("%s %s" % t for t in sorted(got)) or "no storage-class test",
                                                        ("; and an unrecognised condition: " + "; ".join(unknown)) if unknown else ""))
     ctx.floor("R10.10", "push_back of own members in get_virtual_funcs", n, 1)
+
+
+def each_base_contributes_its_own_list(ctx):
+    """R10.11: get_virtual_funcs(funcs) first asks every base for ITS virtual functions, then lets this class's members
+    override (erase and re-add) what came from the bases.  The override pass of a base must see only that base's own
+    hierarchy: two unrelated bases P and Q may both have `f()`; Q::f does not override P::f.  Each base is therefore
+    asked with a fresh list that is appended afterwards.  (Seed S9-C10: the shared list was handed to every base;
+    `struct R : P, Q` with pure P::f and concrete Q::f became non-abstract and constructible.)"""
+    db = ctx.db
+    ctx.rule("R10.11", "in get_virtual_funcs the recursive call on a base receives a list declared inside the loop over _derivation, which is then spliced/appended to the result")
+    fs = [g for g in db.functions if g.name == "CPPStructType::get_virtual_funcs"]
+    if not fs:
+        ctx.broken("R10.11: CPPStructType::get_virtual_funcs not found")
+        return
+    f = fs[0]
+    p0 = (f.params or [{}])[0].get("d")
+    n = 0
+    for c in f.walk():
+        if not (c.get("k") == "call" and c.get("f") == f.name and c.get("a")):
+            continue
+        n += 1
+        r = local_ref(c["a"][0])
+        loops = [lp for lp in enclosing_loops(f, c)]
+        fresh = False
+        if r is not None and r.get("d") != p0 and loops:
+            for y in walk(loops[0].get("body") or {}):
+                if y.get("k") == "decls" and any(dd.get("d") == r["d"] for dd in y["d"]):
+                    fresh = True
+        merged = False
+        if fresh:
+            for y in walk(loops[0].get("body") or {}):
+                if y.get("k") == "call" and callee_short(y) in ("splice", "insert", "merge") and "this" in y and (local_ref(y["this"]) or {}).get("d") == p0 and \
+                   any((local_ref(a) or {}).get("d") == r["d"] for a in y.get("a", [])):
+                    merged = True
+        ctx.ob("R10.11", "get_virtual_funcs|base->get_virtual_funcs(%s)|own-list-per-base" % (r or {}).get("n", "?"), fresh and merged, f.loc(c),
+               "each base fills a list of its own, appended to the result afterwards" if fresh and merged else
+               "the bases share one list: the override pass of a later base erases functions of an earlier, unrelated base")
+    ctx.floor("R10.11", "recursive calls of get_virtual_funcs", n, 1)
